@@ -861,3 +861,66 @@ pub fn chan_handover(s: &mut Src) -> Program {
     spawn_all(&mut threads, vec![], vec![], join);
     Program { threads, rx_owner: rx as u8, arc_owner: vec![] }
 }
+
+/// Message chains: data is published through 1-2 hops of flags; every publish is one of
+/// {release store, release-ish fence + relaxed store, relaxed store}, every consume one of
+/// {acquire load, relaxed load + acquire-ish fence, relaxed load}; a middle thread may use a
+/// single AcqRel/SeqCst fence between its load and its store. Exercises every fence path.
+pub fn litmus_chain(s: &mut Src, p: &LitmusParams) -> Program {
+    let hops = s.range(1, 2);
+    let data: u8 = hops as u8; // location of the payload; flags are 0..hops
+    let rel_f = [MO::Rel, MO::AcqRel, MO::Sc];
+    let acq_f = [MO::Acq, MO::AcqRel, MO::Sc];
+    let publish = |s: &mut Src, ops: &mut Vec<Op>, flag: u8, fenced_already: bool| {
+        match if p.sc_only { 0 } else { s.pick(4) } {
+            0 => ops.push(Op::Store { a: flag, v: 1, o: if p.sc_only { MO::Sc } else { s.of(&[MO::Rel, MO::Sc]) } }),
+            1 | 2 => {
+                if !fenced_already {
+                    ops.push(Op::Fence { o: s.of(&rel_f) });
+                }
+                ops.push(Op::Store { a: flag, v: 1, o: MO::Rlx });
+            }
+            _ => ops.push(Op::Store { a: flag, v: 1, o: MO::Rlx }),
+        }
+    };
+    let consume = |s: &mut Src, ops: &mut Vec<Op>, flag: u8| -> bool {
+        match if p.sc_only { 0 } else { s.pick(4) } {
+            0 => {
+                ops.push(Op::Load { a: flag, o: if p.sc_only { MO::Sc } else { s.of(&[MO::Acq, MO::Sc]) } });
+                false
+            }
+            1 | 2 => {
+                ops.push(Op::Load { a: flag, o: MO::Rlx });
+                let f = s.of(&acq_f);
+                ops.push(Op::Fence { o: f });
+                f != MO::Acq
+            }
+            _ => {
+                ops.push(Op::Load { a: flag, o: MO::Rlx });
+                false
+            }
+        }
+    };
+    let mut threads: Vec<Vec<Op>> = vec![vec![]];
+    // producer
+    let mut t = vec![Op::Store { a: data, v: 1, o: if p.sc_only { MO::Sc } else { s.of(&STORE_ORDS) } }];
+    publish(s, &mut t, 0, false);
+    threads.push(t);
+    // middle threads
+    for h in 1..hops {
+        let mut t = vec![];
+        let fenced = consume(s, &mut t, (h - 1) as u8);
+        publish(s, &mut t, h as u8, fenced);
+        threads.push(t);
+    }
+    // consumer
+    let mut t = vec![];
+    consume(s, &mut t, (hops - 1) as u8);
+    t.push(Op::Load { a: data, o: if p.sc_only { MO::Sc } else { s.of(&LOAD_ORDS) } });
+    threads.push(t);
+    // optionally a second write to the payload by the producer before publishing (coherence)
+    if s.chance(1, 4) {
+        threads[1].insert(1, Op::Store { a: data, v: 2, o: MO::Rlx });
+    }
+    wrap_main(s, threads, hops + 1, p.joins, p.late_spawn)
+}
